@@ -13,12 +13,13 @@ CONSTANTS Proto,       \* 4 or 6
           MaxReplies,  \* replies per transmission
           Rapid        \* DHCPv6: RapidSolicit
 
-\* a reply: [t |-> type, sid |-> server id ("A", "B", "none"), ok |-> passes the transaction filter
+\* a reply: [t |-> type, sid |-> server id ("A", "B", "none", "AA": A's identifier followed by four more octets), ok |-> passes the transaction filter
 \*           (decodable, right transaction id, BOOTREPLY for the client's hardware address), a |-> offered address]
 R(t, sid, ok, a) == [t |-> t, sid |-> sid, ok |-> ok, a |-> a]
 Replies4 == {R("offer", "A", TRUE, 1), R("offer", "B", TRUE, 2), R("offer", "none", TRUE, 3),
              R("ack", "A", TRUE, 1), R("ack", "B", TRUE, 2), R("ack", "none", TRUE, 1),
              R("nak", "A", TRUE, 0), R("nak", "B", TRUE, 0),
+             R("ack", "AA", TRUE, 1), R("nak", "AA", TRUE, 0), \* a server identifier that only begins with A's (the option twice)
              R("decline", "A", TRUE, 1),                      \* a type the client never asks for
              R("offer", "A", FALSE, 1), R("ack", "A", FALSE, 1)}   \* wrong id / hw address / opcode / undecodable
 Replies6 == {R("advertise", "A", TRUE, 1), R("advertise", "B", TRUE, 2), R("reply", "A", TRUE, 1), R("reply", "B", TRUE, 2),
@@ -41,10 +42,13 @@ CountAll(h) == IF h = <<>> THEN 0 ELSE Len(Head(h)) + CountAll(Tail(h))
 Init == /\ phase = "first" /\ try = 1 /\ txs = <<"first">> /\ inbox = <<>> /\ offer = <<>> /\ final = <<>>
         /\ result = "none" /\ hist = <<<<>>>> /\ oi = 0 /\ fi = 0
 
+\* the server identifier a reply bears: an option 54 that is not four octets long is no identifier (C17: a malformed
+\* value reads as absent)
+Eff(sid) == IF sid = "AA" THEN "none" ELSE sid
 \* matchers of the two exchanges
 AcceptFirst(r) == r.ok /\ (IF Proto = 4 THEN r.t = "offer"
                            ELSE IF Rapid THEN r.t \in {"advertise", "reply"} ELSE r.t = "advertise")
-AcceptSecond(r) == r.ok /\ (IF Proto = 4 THEN r.t \in {"ack", "nak"} /\ r.sid = offer[1].sid    \* that server's ACK or NAK
+AcceptSecond(r) == r.ok /\ (IF Proto = 4 THEN r.t \in {"ack", "nak"} /\ Eff(r.sid) = Eff(offer[1].sid)    \* that server's ACK or NAK
                             ELSE TRUE)                                                           \* DHCPv6: paired by transaction id only
 
 Deliver(r) ==
@@ -79,8 +83,8 @@ Spec == Init /\ [][Next]_vars
 
 \* ----------------------------------------------------------- properties (C13)
 \* a lease is made of the accepted offer and an ACK bearing that offer's server identifier
-LeaseRule == (Proto = 4 /\ result = "lease") => offer # <<>> /\ final[1].t = "ack" /\ final[1].sid = offer[1].sid /\ final[1].ok
-NakRule == result = "nak" => final[1].t = "nak" /\ final[1].sid = offer[1].sid
+LeaseRule == (Proto = 4 /\ result = "lease") => offer # <<>> /\ final[1].t = "ack" /\ Eff(final[1].sid) = Eff(offer[1].sid) /\ final[1].ok
+NakRule == result = "nak" => final[1].t = "nak" /\ Eff(final[1].sid) = Eff(offer[1].sid)
 \* the REQUEST is only sent for an accepted offer, at most Tries times per exchange
 RequestRule == /\ (\E i \in DOMAIN txs : txs[i] = "second") => offer # <<>>
                /\ Cardinality({i \in DOMAIN txs : txs[i] = "second"}) <= Tries
